@@ -2,6 +2,7 @@ import IodineModel.Server.WriteDns
 import IodineModel.Client.ReadDns
 import IodineModel.Lemmas.DownstreamE2E
 import IodineModel.Lemmas.DownstreamMx
+import IodineModel.Props.C10Session
 /-
 C09 — downstream answers decode exactly (or to a prefix), monotonically in size.
 
@@ -432,5 +433,66 @@ example : mxJoined 83 2960 = 4096 ∧ mxJoined 83 2959 = 4095 := by decide
 
 /-- downward closure, instantiated: 2464 bytes fit an MX answer, hence 1000 do -/
 example : fits 4096 15 84 1000 = true := exact_downward_closed 4096 15 84 (n := 2464) (by decide) (by omega) (by omega)
+
+/-! ### Whole sessions of the byte-level server (Server/Bytes.lean)
+
+The theorems above speak about one call of `write_dns`.  Here they are lifted to every datagram the server sends through
+`write_dns` in a session: vocabulary `LegalReachable`, `LegalDgram`, `TunnelTypes` of Props/C10Session.lean. -/
+
+open Iodine.Server in
+/-- **session_answer_extracts_prefix_partial.**  In every state reachable from start-up through arbitrary inputs (with legal
+decoded question names), for every further input and every datagram `tx dst bytes` the iteration sends: it encodes an
+`ans dst id ty dn name data` event of that iteration (the call `write_dns(q, data, datalen, downenc)`), and if `data` is a byte
+string of 2..4096 bytes, then the client reading `bytes` with `read_dns_withq` into a buffer of `B` bytes (4096 in the handshake,
+64 KiB in the tunnel) does not fault and extracts a prefix of `data` — all of it when `fits B ty dn |data|`, a proper prefix
+otherwise; never other bytes.
+
+PARTIAL for the same reason as C10 `session_datagrams_wellformed_partial`: the premise that the payload of the `ans` event is a
+byte string of 2..4096 bytes is not discharged from the session invariants (1-byte payloads exist: the "x" answer to a
+recognised duplicate, which the client is meant to reject). -/
+theorem session_answer_extracts_prefix_partial (cfg : Config) (b : BSrv) (hr : C10.LegalReachable cfg b)
+    (inp : BInput) (now' : Nat) (hl : C10.LegalDgram inp) (dst : Addr) (bytes : List Nat)
+    (htx : BEvent.tx dst bytes ∈ (biteration b inp now').2.1) (B : Nat) (hB : 4096 ≤ B ∧ B ≤ 65536) :
+    ∃ id ty dn name data tag,
+      Event.ans dst id ty dn name data tag ∈ out b.srv ⟨toInput b.srv inp, now'⟩ ∧
+      ((∀ x ∈ data, x < 256) → 2 ≤ data.length → data.length ≤ 4096 →
+        ∃ e, (readDnsWithq B bytes).map (·.buf) = .ok e ∧ e <+: data ∧
+          (fits B ty dn data.length = true → e = data) ∧ (fits B ty dn data.length = false → e.length < data.length)) := by
+  have hinv := C10.legalReachable_inv hr
+  have hstep := BytesL.binv_step hinv inp now' ((C10.legalDgram_iff inp).1 hl)
+  obtain ⟨pr, hpr, hb⟩ := BytesL.mem_encodeEvents htx
+  obtain ⟨hmem, htxs, _, _⟩ := (BytesL.encodeEventsL_spec _ _ _ _ hinv.td).2 pr hpr
+  obtain ⟨td0, id, ty, dn, name, data, tag, htd0, hev, hw⟩ := htxs dst bytes hb
+  rw [hev] at hmem
+  have hgood := hstep.2 dst id ty dn name data tag hmem
+  refine ⟨id, ty, dn, name, data, tag, hmem, ?_⟩
+  intro hd h2 h4096
+  have hty : ty ∈ QTypes := by
+    have := hgood.2.2
+    unfold BytesL.TunnelType at this
+    simp only [QTypes, List.mem_cons, List.not_mem_nil, or_false]
+    exact this
+  have S : Setting B td0 id ty name data := ⟨hB, htd0, hgood.1, hty, hgood.2.1, ⟨h2, h4096⟩, hd⟩
+  obtain ⟨e, he, hpre, hfit, hnfit⟩ := extract_spec S dn
+  refine ⟨e, ?_, hpre, hfit, hnfit⟩
+  unfold extract answer at he
+  rw [hw] at he
+  exact he
+
+open Iodine.Server in
+/-- non-vacuity: the VNAK answer (9 bytes) to the version request of Props/C10Session.lean, read by the client with its
+handshake buffer: the payload arrives exactly -/
+def exExtractOk : Bool :=
+  match (biteration (bstart C10.exCfgS []) (.dgram C10.exSrc C10.exDgramV) 1000).2.1 with
+  | [.tx _ bytes] => (readDnsWithq 4096 bytes).map (·.buf) == .ok ([86, 78, 65, 75] ++ [0, 0, 5, 2] ++ [0])
+  | _ => false
+
+example : exExtractOk = true := by decide +kernel
+
+open Iodine.Server in
+example (dst : Addr) (bytes : List Nat)
+    (h : BEvent.tx dst bytes ∈ (biteration (bstart C10.exCfgS []) (.dgram C10.exSrc C10.exDgramV) 1000).2.1) :=
+  session_answer_extracts_prefix_partial C10.exCfgS _ (.init []) (.dgram C10.exSrc C10.exDgramV) 1000 (by decide +kernel)
+    dst bytes h 4096 (by omega)
 
 end Iodine.C09
